@@ -19,25 +19,25 @@ const lalPrefix = "github.com/q191201771/lal/"
 const nazaPrefix = "github.com/q191201771/naza/"
 
 type Prog struct {
-	prog   *ssa.Program
-	pkgs   []*packages.Package
-	fset   *token.FileSet
-	funcs  map[string]*ssa.Function // key: pkgpath.RelName
-	keyOf  map[*ssa.Function]string
-	specs  *Specs
-	dirty  map[string]bool // "typeShort.field" whose address escapes
-	mods   map[*ssa.Function]map[string]bool
-	typeID map[string]int
-	typeBy map[int]types.Type
-	files  map[string]*ast.File // filename -> syntax
-	src    map[string][]byte
-	byPos  map[token.Pos]ast.Node // Lbrack / Lparen / etc. -> node
-	inScope []*ssa.Function
-	addrTaken map[string][]*ssa.Function // signature string -> functions used as values
-	implCache map[string][]*ssa.Function
-	pkgByPath map[string]*ssa.Package
+	prog       *ssa.Program
+	pkgs       []*packages.Package
+	fset       *token.FileSet
+	funcs      map[string]*ssa.Function // key: pkgpath.RelName
+	keyOf      map[*ssa.Function]string
+	specs      *Specs
+	dirty      map[string]bool // "typeShort.field" whose address escapes
+	mods       map[*ssa.Function]map[string]bool
+	typeID     map[string]int
+	typeBy     map[int]types.Type
+	files      map[string]*ast.File // filename -> syntax
+	src        map[string][]byte
+	byPos      map[token.Pos]ast.Node // Lbrack / Lparen / etc. -> node
+	inScope    []*ssa.Function
+	addrTaken  map[string][]*ssa.Function // signature string -> functions used as values
+	implCache  map[string][]*ssa.Function
+	pkgByPath  map[string]*ssa.Package
 	namedTypes []*types.Named
-	repo string
+	repo       string
 }
 
 func inScopePkg(path string) bool {
